@@ -114,7 +114,7 @@ def job_dialects(names):
                             acc.violation('title-recognition', case, 'line without a header prefix recognised by match_' + mt)
         for r in STEP:
             for k in D[d][r]:
-                for b in ('*', '+', '-', '', '•', '#', '1.'):
+                for b in ('*', '+', '-', '', '•', '#', '1.', 'note -', '> *', '1. +', 'so-'):
                     for sp in ('', ' ', '  '):
                         for ind, eol in (('', ''), ('  ', ''), ('', '\n'), (' ', '\r\n')):
                             line = ind + b + sp + k + 'text here ' + eol
@@ -188,7 +188,7 @@ def job_tables(ncells):
     return acc
 
 
-WORDS = ['', 'and ', 'text @not `code` ', '`x` ']
+WORDS = ['', 'and ', 'text @not `code` ', '`x` ', '`@` ', '`` @ ']
 
 
 @worker
@@ -230,7 +230,7 @@ def run(ctx):
     names = sorted(D)
     ctx.rule = ('complete sweep dialect x keyword x role x header depth / bullet x indentation x separator x title; table rows x indentation 0..8 x cell menus; tag lines; '
                 'non-trivial = lines that must be (and are) recognised, whose token fields are compared')
-    ctx.alphabet = {'dialects': len(names), 'header_depths': list(range(1, 8)), 'bullets': ['*', '+', '-', '', '•', '#', '1.'], 'cells': CELLS, 'tag_names': ['@a', '@tag-2', '@ü😀']}
+    ctx.alphabet = {'dialects': len(names), 'header_depths': list(range(1, 8)), 'bullets': ['*', '+', '-', '', '•', '#', '1.', 'note -', '> *', '1. +', 'so-'], 'cells': CELLS, 'tag_names': ['@a', '@tag-2', '@ü😀']}
     ctx.assumptions = ['line-level matching only (end-to-end Markdown parsing is documented as JavaScript-only); match_Comment / match_Empty of the Markdown matcher are outside the property']
     ctx.level('dialects x keywords x layouts', [job_dialects.job(names[i:i + 3]) for i in range(0, len(names), 3)])
     ctx.level('table rows', [job_tables.job(n) for n in (0, 1, 2, 3)] + ([job_tables.job(4)] if not ctx.quick else []))
